@@ -5,7 +5,7 @@
    Objects arrive in a sparse form (only members that hold something); [dense] aligns them with the
    class table, [sparse_ok] refuses a member name the table does not have. *)
 From Coq Require Import String Ascii List Bool Arith NArith.
-From Verif Require Import Base.Str Base.Run Base.Xml Base.ClassTable C12.Model C12.Spec C12.Xsd C12.Build.
+From Verif Require Import Base.Str Base.Run Base.Xml Base.ClassTable C12.Model C12.Spec C12.Xsd C12.Build C12.Prefix.
 From VerifGen Require Import ClassTables C12Vocab C12Schema.   (* C12Vocab: only so that make builds it for the case files *)
 Import ListNotations.
 Open Scope string_scope.
@@ -14,6 +14,32 @@ Open Scope list_scope.
 Inductive sobj : Type :=
   SO (c : N) (sa : list (string * string)) (sk : list (string * list sobj)) (ext : list ee)
      (xa : attrs) (tx : option string).
+
+(* round 5 (seeds C12-0 / C12-9): the serialisation entry points of SamlBase, as steps of a HISTORY on long-lived
+   instances in one process: to_string() / str(), to_string(nspair), register_prefix(nspair),
+   to_string_force_namespace(nspair), get_xml_string_with_self_contained_assertion_within_encrypted_assertion() *)
+Inductive sop := SPlain | SNs (np : nspairs) | SReg (np : nspairs) | SForce (np : nspairs) | SSelf.
+
+Definition pairs_eqb : list (string * string) -> list (string * string) -> bool :=
+  list_eqb (fun a b => String.eqb (fst a) (fst b) && String.eqb (snd a) (snd b)).
+
+Definition sop_eqb (a b : sop) : bool :=
+  match a, b with
+  | SPlain, SPlain | SSelf, SSelf => true
+  | SNs x, SNs y | SReg x, SReg y | SForce x, SForce y => pairs_eqb x y
+  | _, _ => false
+  end.
+
+Definition writes (op : sop) : bool := match op with SReg _ => false | _ => true end.
+Definition exact_op (op : sop) : bool := match op with SPlain | SNs _ => true | _ => false end.
+
+(* what the step does to the process-global registry *)
+Definition model_map (m : nsmap) (op : sop) : nsmap :=
+  match op with SNs np | SReg np => register_prefix m np | _ => m end.
+
+(* the (prefix, namespace) bindings in force while the step writes: the registry and the forced pairs *)
+Definition step_binds (gm : nsmap) (op : sop) : list (string * string) :=
+  map (fun up => (snd up, fst up)) gm ++ match op with SForce np => np | _ => [] end.
 
 Section Corr.
   Variable T : table.
@@ -77,6 +103,12 @@ Section Corr.
     | _, _ => false
     end.
 
+  (* one step of a history: instance j, the call, and what was observed after it: the registry
+     (ElementTree._namespace_map), the instance, what the independent reader makes of the bytes (None: the call
+     raised or the bytes are not well-formed), what the library's parser makes of them, and an identifier of the
+     byte string (equal identifiers = equal bytes) *)
+  Inductive sstep := SStep (j : nat) (op : sop) (gm : nsmap) (after : sobj) (out : option tree) (r : pres) (bid : nat).
+
   Inductive case :=
   | RT (c : N) (o_in : sobj) (t1 : tree) (r1 : pres) (t2 : option tree) (same12 : bool) (r2 : pres) (same23 : bool)
   | DOC (c : N) (t : tree) (r : pres) (t2 : option tree) (r2 : pres) (same23 : bool)
@@ -88,7 +120,9 @@ Section Corr.
   | RTB (c : N) (b : recipe) (o_in : sobj) (t1 : tree) (r1 : pres) (t2 : option tree) (same12 : bool) (r2 : pres)
         (same23 : bool)
   | BRAISE (c : N) (b : recipe)       (* the recipe raised ValueError on the implementation *)
-  | BNONSTR (c : N) (b : recipe).     (* the text member of the built instance is not a str (to_string() raises) *)
+  | BNONSTR (c : N) (b : recipe)      (* the text member of the built instance is not a str (to_string() raises) *)
+  (* round 5: a history of serialisation calls on several long-lived instances; gm0 = the registry at the start *)
+  | SEQ (gm0 : nsmap) (objs : list sobj) (steps : list sstep).
 
   Definition follow (c : N) (r : pres) (t2 : option tree) (r2 : pres) : bool :=
     match r, t2 with
@@ -110,6 +144,45 @@ Section Corr.
        | TUnmodelled => true
        end.
 
+  Definition st_j (s : sstep) := match s with SStep j _ _ _ _ _ _ => j end.
+  Definition st_op (s : sstep) := match s with SStep _ op _ _ _ _ _ => op end.
+  Definition st_gm (s : sstep) := match s with SStep _ _ gm _ _ _ _ => gm end.
+  Definition st_out (s : sstep) := match s with SStep _ _ _ _ out _ _ => out end.
+  Definition st_bid (s : sstep) := match s with SStep _ _ _ _ _ _ bid => bid end.
+
+  (* the model of a history: the registry follows register_prefix (C12/Prefix.v); serialising is a FUNCTION of the
+     instance - every call leaves the instance as it was and writes the tree ser T o (to_string_force_namespace /
+     the self-contained variant: up to the order of the attributes, which the prefix rewriting changes) - unless the
+     forced prefixes collide with the ones ElementTree hands out (force_collides: xmlns:<p> twice, finding class 9).
+     Not restated: a prefix bound to another namespace than the xmlns:xs pseudo attribute of a typed AttributeValue
+     declares (pseudo_clash, finding class 4): no agreement demanded on what such a step writes. *)
+  Fixpoint agrees_steps (objs : list sobj) (m : nsmap) (steps : list sstep) : bool :=
+    match steps with
+    | [] => true
+    | SStep j op gm after out r _ :: rest =>
+        let m' := model_map m op in
+        match nth_error objs j with
+        | None => false
+        | Some so =>
+            let o := dense so in
+            let c := o_cls o in
+            pairs_eqb m' gm && obj_eqb (dense after) o
+            && (negb (writes op) || pseudo_clash (step_binds gm op) (to_tree T o)
+                || match op, out with
+                   | SForce np, _ =>
+                       if force_collides m' np (to_tree T o) then negb (is_some out)
+                       else match out with
+                            | Some t => tree_sim_b (ser T o) t && agree_pres (mparse c t) r
+                            | None => false
+                            end
+                   | SSelf, Some t => tree_sim_b (ser T o) t && agree_pres (mparse c t) r
+                   | _, Some t => tree_eqb (ser T o) t && agree_pres (mparse c t) r
+                   | _, None => false
+                   end)
+            && agrees_steps objs m' rest
+        end
+    end.
+
   Definition agrees (k : case) : bool :=
     match k with
     | RT c o_in t1 r1 t2 _ r2 _ => agrees_rt c o_in t1 r1 t2 r2
@@ -118,6 +191,7 @@ Section Corr.
     | RTB c b o_in t1 r1 t2 _ r2 _ => agrees_build c b o_in && agrees_rt c o_in t1 r1 t2 r2
     | BRAISE c b => recipe_ok b && match av_build b with TRaise | TUnmodelled => true | _ => false end
     | BNONSTR c b => recipe_ok b && match av_build b with TNonStr | TUnmodelled => true | _ => false end
+    | SEQ gm0 objs steps => forallb sparse_ok objs && agrees_steps objs gm0 steps
     end.
 
   Definition same_obj (r : pres) (o : obj) : bool :=
@@ -138,6 +212,68 @@ Section Corr.
              (same23 : bool) : bool :=
     same_obj r1 o && same12 && in_order c t1 && same_obj r2 o && same23
     && match t2 with Some t2' => in_order c t2' | None => false end.
+
+  Definition pres_eqb (a b : pres) : bool :=
+    match a, b with
+    | POk x, POk y => obj_eqb (dense x) (dense y)
+    | PNone, PNone | PRaise, PRaise => true
+    | _, _ => false
+    end.
+
+  Definition pres_ok (a : pres) : bool := match a with POk _ => true | _ => false end.
+
+  (* the first to_string() / to_string(nspair) of instance j in the history that produced a document *)
+  Definition ref_of (steps : list sstep) (j : nat) : option sstep :=
+    find (fun s => Nat.eqb (st_j s) j && exact_op (st_op s) && is_some (st_out s)) steps.
+
+  Definition step_key_eqb (a b : sstep) : bool :=
+    Nat.eqb (st_j a) (st_j b) && sop_eqb (st_op a) (st_op b) && pairs_eqb (st_gm a) (st_gm b).
+
+  (* the property on one step of a history:
+     - the registry stays usable (prefixes pairwise distinct, none of ElementTree's own form: otherwise SOME later
+       instance is written with one prefix for two namespaces, Prefix.dup_prefix_breaks);
+     - serialising does not change the instance;
+     - what is written is a well-formed document, its children are in schema order, and it is the SAME document
+       (for every prefix choice; attribute order aside for the prefix-forcing calls) as the first one written for
+       this instance: re-parsing yields the same object whenever, however often and next to whatever other
+       instance it is serialised;
+     - an instance in the sense of the property comes back from the parser as it was built; a prefix-forced
+       document loses nothing (unknown children and attributes surface as extensions) *)
+  Definition step_ok (objs : list sobj) (steps : list sstep) (s : sstep) : bool :=
+    match s with
+    | SStep j op gm after out r _ =>
+        match nth_error objs j with
+        | None => false
+        | Some so =>
+            let o := dense so in
+            let c := o_cls o in
+            map_ok_b gm && obj_eqb (dense after) o
+            && (negb (writes op)
+                || match out with
+                   | None => false
+                   | Some t =>
+                       in_order c t
+                       && match ref_of steps j with
+                          | Some (SStep _ _ _ _ (Some t0) r0 _) =>
+                              if exact_op op then tree_eqb t0 t && pres_eqb r0 r
+                              else tree_sim_b t0 t && (pres_ok r || negb (pres_ok r0))
+                          | _ => true
+                          end
+                       && (if exact_op op then negb (canonical_b T o) || same_obj r o
+                           else match r with
+                                | POk s' => tag_is T c (t_tag t) && nd_b T c t (dense s') && kept c t (dense s')
+                                | _ => true
+                                end)
+                   end)
+        end
+    end.
+
+  (* the same call on the same instance under the same registry writes the same bytes *)
+  Definition bytes_stable (steps : list sstep) : bool :=
+    forallb (fun a => forallb (fun b => negb (step_key_eqb a b) || Nat.eqb (st_bid a) (st_bid b)) steps) steps.
+
+  Definition holds_seq (gm0 : nsmap) (objs : list sobj) (steps : list sstep) : bool :=
+    map_ok_b gm0 && forallb (step_ok objs steps) steps && bytes_stable steps.
 
   Definition holds (k : case) : bool :=
     match k with
@@ -160,6 +296,7 @@ Section Corr.
        unchanged"); the property quantifies over text that is a string of XML characters: outside its domain.
        The case only checks that the model knows when this happens (agrees). *)
     | BNONSTR _ _ => true
+    | SEQ gm0 objs steps => holds_seq gm0 objs steps
     end.
 
   (* ---- finding classes (consulted only when [holds] is false) *)
@@ -207,6 +344,15 @@ Section Corr.
         end
     | BRAISE _ _ => 0
     | BNONSTR _ _ => 0
+    | SEQ _ objs steps =>
+        let tree_of j := match nth_error objs j with Some so => to_tree T (dense so) | None => Node (QN None "") [] "" [] end in
+        if existsb (fun s => match st_op s with
+                             | SForce np => force_collides (st_gm s) np (tree_of (st_j s))
+                             | _ => false
+                             end) steps then 9
+        else if existsb (fun s => writes (st_op s) && pseudo_clash (step_binds (st_gm s) (st_op s)) (tree_of (st_j s))) steps then 4
+        else if negb (forallb (fun so => no_cr_b (dense so)) objs) then 2
+        else 0
     end.
 
   Definition explain (k : case) :=
@@ -221,6 +367,13 @@ Section Corr.
          match r with POk s => Some (dense s) | _ => None end,
          (true, true, match t2 with Some t => in_order c t | None => true end))
     | IMPL _ | IMPLF _ _ | BRAISE _ _ | BNONSTR _ _ => (None, MNone, true, None, (true, true, true))
+    | SEQ gm0 objs steps =>
+        (* registry agrees at every step / usable at every step; instances unchanged; every step ok, bytes stable *)
+        (None, MNone, agrees_steps objs gm0 steps, None,
+         (forallb (fun s => map_ok_b (st_gm s)) steps,
+          forallb (fun s => match s with SStep j _ _ after _ _ _ =>
+                              match nth_error objs j with Some so => obj_eqb (dense after) (dense so) | None => false end end) steps,
+          forallb (step_ok objs steps) steps && bytes_stable steps))
     | RTB c b o_in t1 r1 t2 same12 r2 same23 =>
         (Some (ser T (dense o_in)), mparse c t1, agrees_build c b o_in && recipe_in_scope b,
          match av_build b with TOk xa tx => Some (av_obj c (r_ext b) xa tx) | _ => None end,
